@@ -56,6 +56,14 @@ class Concretizer:
 
     def string(self, s):
         if s.sym is None: return s.s
+        if s.parts is not None:
+            out = []
+            for part in s.parts:
+                if isinstance(part, str): out.append(part)
+                elif isinstance(part, tuple):
+                    n = self.num(part[1]); out.append(dec_str(n) if part[0] == 'dec' else str(n))
+                else: out.append(self.string(part))
+            return ''.join(out)
         k = self.num(s.sym)
         if k in self.names and self.names[k] is not None: return self.names[k]
         return 'sym%d' % k if k >= 0 else 'symneg%d' % (-k)
@@ -300,6 +308,11 @@ def compare(prog, path, conc, real):
             if a != b: mism.append('message %d differs:\n  predicted %s\n  real      %s' % (i, json.dumps(a, sort_keys=True)[:600], json.dumps(b, sort_keys=True)[:600]))
         pa = ok.fields[1].items; ra = res['response']['attributes']
         if len(pa) != len(ra): mism.append('attribute count predicted %d real %d' % (len(pa), len(ra)))
+        for a, b in zip(pa, ra):
+            k, v = deref(a.fields[0]), deref(a.fields[1])
+            if isinstance(k, Str) and k.s is not None and k.s != b['key']: mism.append('attribute key predicted %s real %s' % (k.s, b['key']))
+            if isinstance(v, Str) and (v.s is not None or v.parts is not None) and conc.string(v) != b['value']:
+                mism.append('attribute %s predicted %s real %s' % (b['key'], conc.string(v), b['value']))
         pd = ok.fields[3]
         if pd.variant == 'Some':
             try:
